@@ -331,7 +331,8 @@ class CustomFencedCode(block.FencedCode):
     ) -> None:
         # We intentionally don't call super().__init__ because we need a different
         # tuple format that includes fence_char and fence_len
-        self.lang = inline.Literal.strip_backslash(match[0])
+        # Kept as written (backslash escapes included): the info string is rendered verbatim.
+        self.lang = match[0]
         self.extra = match[1]
         self.children = [inline.RawText(match[2], False)]
         self.fence_char = match[3]
